@@ -14,7 +14,7 @@ def set_(xs):
 
 
 def cgt_cfg(secs='SecSeqA', dayset=1, buy=(0, 1, 2), sell=(0, 1, 2), qden=1, splits=(), maxsplits=0,
-            events=(), maxevents=0, grid=1, maxcells=0, timings=('"end"',)):
+            events=(), maxevents=0, grid=1, maxcells=0, timings=('"end"',), covered_only=False):
     return f'''SPECIFICATION MCSpec
 CONSTANTS
   SecSeq <- {secs}
@@ -31,6 +31,7 @@ CONSTANTS
   MaxEvents = {maxevents}
   DistGrid = {grid}
   MaxCells = {maxcells}
+  CoveredOnly = {'TRUE' if covered_only else 'FALSE'}
   Emit = TRUE
 INVARIANTS
   {CGT_INVARIANTS}
@@ -90,6 +91,9 @@ FAMILIES = {
     # cost events and splits together
     'events_split_q': dict(cfg=dict(dayset=3, buy=(0, 1, 2), sell=(0, 1), events=(1, 2), maxevents=1, grid=2,
                                     splits=(1,), maxsplits=1, maxcells=4, timings=BOTH), variants='none', bases=1, obs=True),
+    # random walks (tlc -simulate): two securities, eight slots, quantities 0..3, one split each, covered sales only
+    'sim_t': dict(cfg=dict(secs='SecSeqAB', dayset=2, buy=(0, 1, 2, 3), sell=(0, 1, 2, 3), splits=(1, 2, 3), maxsplits=1, timings=BOTH,
+                           covered_only=True), variants='orders', bases=2, simulate='num=1500', depth=250),
     'two_t': dict(cfg=dict(secs='SecSeqAB', dayset=5, buy=(0, 1, 2), sell=(0, 1), maxcells=3), variants='orders', bases=1),
 }
 
@@ -127,12 +131,16 @@ def obs_pass(name, fam, obs_path, records):
     return {'states': m['states'], 'transitions': m['transitions'], 'verdicts': n, 'bad': bad}
 
 
-def cgt_family(name):
+def cgt_family(name, seed=1):
     if name in _family_cache:
         return _family_cache[name]
     fam = FAMILIES[name]
     cfg = write_cfg('MC_Cgt_' + name, cgt_cfg(**fam['cfg']))
-    m = tlc('MC_Cgt', cfg, workers=8, timeout=3000)
+    if fam.get('simulate'):
+        # random walks through the same Next (generator actions add one cell per step): deeper than the exhaustive bound
+        m = tlc('MC_Cgt', cfg, workers=8, timeout=3000, simulate=fam['simulate'], seed=seed, depth=fam.get('depth', 250))
+    else:
+        m = tlc('MC_Cgt', cfg, workers=8, timeout=3000)
     log(f'[tlc] MC_Cgt/{name}: {m["states"]} distinct states, {m["transitions"]} transitions, depth {m["depth"]}'
         f' ({"cached" if m["cached"] else str(m["wall_s"]) + "s"})')
     wd = workdir('cgt_' + name)
@@ -280,6 +288,7 @@ CONSTANTS
   MaxEvents = 0
   DistGrid = 1
   MaxCells = {maxcells}
+  CoveredOnly = FALSE
   Emit = TRUE
   BaseY = {base[0]}
   BaseM = {base[1]}
